@@ -338,7 +338,41 @@ def stage_b(ctx, pts, exhaustive_idx=None):
     return out
 
 
+def suite_under_monitors(ctx):
+    """thorough tier, one shard: the repository's own test-suite with vfw.pytest_plugin on
+    (digest wrapper around getBH_level2, path post-conditions, forest check after every test,
+    defaults digest around show)"""
+    import json
+    import os
+    import subprocess
+    import sys
+    import tempfile
+
+    from vfw.runner import REPO, VERIF
+
+    with tempfile.TemporaryDirectory(dir="/var/tmp") as td:
+        out = os.path.join(td, "plugin.json")
+        env = {**os.environ, "VFW_PLUGIN_OUT": out, "MPLBACKEND": "Agg",
+               "PYTHONPATH": os.pathsep.join([REPO, VERIF, os.path.join(VERIF, ".deps")])}
+        try:
+            subprocess.run([sys.executable, "-m", "pytest", "-q", "-p", "no:cacheprovider", "-p", "vfw.pytest_plugin",
+                            "--timeout=900", "tests"], cwd=REPO, env=env, capture_output=True, text=True, timeout=1500)
+            d = json.load(open(out))
+        except Exception as e:
+            ctx.inconclusive_case("suite under monitors did not complete: " + repr(e)[:200], None)
+            return
+    for k, v in d["evals"].items():
+        ctx.count("suite:" + k, v)
+    if d.get("install_error"):
+        ctx.inconclusive_case("plugin install failed: " + d["install_error"][:200], None)
+    for v in d["violations"]:
+        ctx.violation({"stage": "suite", "kind": v["kind"]}, {"test": v["where"]}, v)
+    ctx.evaluated({"suite_under_monitors": d["evals"]}, nontrivial=True, n=int(d["evals"].get("getBH_level2:digest_checks", 0)))
+
+
 def run_shard(ctx):
+    if ctx.tier == "thorough" and ctx.shard == 0:
+        suite_under_monitors(ctx)
     pts = crash_points()
     ctx.count("crash_points_total", len(pts) if ctx.shard == 0 else 0)
     i = ctx.shard
